@@ -74,6 +74,9 @@ func apply(c cache.Cache[string, int], o Op, hid int) (e ev) {
 
 var keys = []string{"k1", "k2", "k3", "k4", "k5", "k6"}
 
+// keys no generated history uses: the pressure tail fills the cache with them
+var freshKeys = []string{"f1", "f2", "f3", "f4", "f5", "f6", "f7"}
+
 // Replay runs every history on a fresh cache of each variant and logs one event per call, followed by a
 // probe sweep (Get of every key) that makes the stored set observable through the public API.
 func Replay(args []string) {
@@ -92,6 +95,21 @@ func Replay(args []string) {
 			w.Emit(apply(c, o, hid))
 		}
 		for _, k := range keys[:*nkeys] {
+			w.Emit(apply(c, Op{Op: "get", K: k}, hid))
+		}
+		// pressure tail: more fresh keys than the cache holds, so that whatever the history left behind (hand, visited
+		// bits, queue order) has to carry the cache through eviction sweeps, then the stored set is read back
+		n := h.RawCap + 2
+		if n < 3 {
+			n = 3
+		}
+		if n > len(freshKeys) {
+			n = len(freshKeys)
+		}
+		for i, k := range freshKeys[:n] {
+			w.Emit(apply(c, Op{Op: "put", K: k, V: 1 + i%2}, hid))
+		}
+		for _, k := range append(append([]string{}, keys[:*nkeys]...), freshKeys[:n]...) {
 			w.Emit(apply(c, Op{Op: "get", K: k}, hid))
 		}
 	}
